@@ -64,6 +64,22 @@ def main():
     subprocess.run(["git", "-C", "/repo", "worktree", "prune"])
     shutil.rmtree(SCR, ignore_errors=True)
     json.dump(out, open(f"{VERIF}/out/seed_results.json", "w"), indent=1)
+    # committed catch matrix: merged over runs, one entry per seed and property checked
+    path = f"{VERIF}/seeded/RESULTS.json"
+    allr = json.load(open(path)) if os.path.exists(path) else {}
+    head = subprocess.run(["git", "-C", "/repo", "rev-parse", "--short", "HEAD"], capture_output=True, text=True).stdout.strip()
+    for sid, res in out.items():
+        ent = allr.setdefault(sid, {})
+        for p, r in res.items():
+            if p == "error":
+                ent["error"] = r
+                continue
+            ent.pop("error", None)
+            obl = sorted({m.group(1) for ln in r["lines"] for m in [re.search(r"obligation=(\S+)", ln)] if m and ln.startswith("VIOLATION")})
+            ent[p] = {"exit": r["exit"], "verdict": {0: "MISSED", 1: "detected", 2: "undecided", 3: "checker-error"}.get(r["exit"], "?"),
+                      "failed_obligations": obl[:6], "replayed_input": any(ln.startswith("VIOLATION") and not ln.rstrip().endswith("no-failing-input-found") for ln in r["lines"]),
+                      "repo_head": head}
+    json.dump(allr, open(path, "w"), indent=1, sort_keys=True)
 
 
 if __name__ == "__main__":
